@@ -312,6 +312,7 @@ func (n *Node) Close() {
 	}
 	if n.BC != nil {
 		n.BC.Stop()
+		releaseFastcaches(n.BC)
 	}
 }
 
